@@ -1,7 +1,7 @@
 SPECIFICATION Spec
 CONSTANTS
-  MaxFull = 3
-  MaxCrit = 4
-  MaxSoup = 4
+  MaxFull = 4
+  MaxCrit = 5
+  MaxSoup = 5
 INVARIANTS LexOK Emit
 CHECK_DEADLOCK FALSE
